@@ -634,6 +634,7 @@ func (h *hydra) UnsubscribeFromSwampInfo(clientID uuid.UUID, swampName name.Name
 	if subscribers, ok := h.infoSubscribers.Load(canonicalForm); ok {
 		subscribers.(*sync.Map).Delete(clientID.String())
 	}
+	verifhook.Point("hydra.unsubscribeInfo.afterRemove")
 
 	allSubscribers := 0
 	h.infoSubscribers.Range(func(key, value interface{}) bool {
@@ -696,6 +697,7 @@ func (h *hydra) UnsubscribeFromSwampEvents(clientID uuid.UUID, swampName name.Na
 			subscribers.(*sync.Map).Delete(clientID.String())
 		}
 	}
+	verifhook.Point("hydra.unsubscribeEvents.afterRemove")
 
 	allSubscribers := 0
 	h.eventSubscribers.Range(func(key, value interface{}) bool {
